@@ -25,7 +25,10 @@
   static inline void N##_clear(struct N *v) { N##_resize(v, 0); } \
   static inline void N##_push_back(struct N *v, T x) { size_t s = v->size; N##_resize(v, s + 1); v->data[s] = x; } \
   static inline void N##_pop_back(struct N *v) { __CPROVER_assert(v->size > 0, "vector::pop_back on a non-empty vector"); N##_resize(v, v->size - 1); } \
-  static inline T *N##_at(struct N *v, size_t i) { if (i >= v->size) { __exc = V_EXC_OUT_OF_RANGE; return NULL; } return &v->data[i]; } \
+  static inline void N##_pop_front(struct N *v) { __CPROVER_assert(v->size > 0, "deque::pop_front on a non-empty container"); \
+    if (v->size > 1) v_memmove(v->data, v->data + 1, (v->size - 1) * sizeof(T)); N##_resize(v, v->size - 1); } \
+  static T N##_thrown;   /* at() that throws yields no value: the enclosing statement is abandoned right after */ \
+  static inline T *N##_at(struct N *v, size_t i) { if (i >= v->size) { __exc = V_EXC_OUT_OF_RANGE; return &N##_thrown; } return &v->data[i]; } \
   static inline T *N##_index(struct N *v, size_t i) { __CPROVER_assert(i < v->size, "vector::operator[] index in range"); return &v->data[i]; } \
   static inline T *N##_back(struct N *v) { __CPROVER_assert(v->size > 0, "vector::back on a non-empty vector"); return &v->data[v->size - 1]; } \
   static inline T *N##_front(struct N *v) { __CPROVER_assert(v->size > 0, "vector::front on a non-empty vector"); return &v->data[0]; }
